@@ -19,14 +19,13 @@ import RedisEmu.Dict
 open RedisEmu
 
 def Quirks.current : Quirks :=
-  { appendDropsTtl := true, getrangeMissingNil := true, setrangeEmptyCreates := true,
-    decrbyMinAccepted := true, lmoveSelfSingleLoses := true, hincrbyCmpDelta := true,
-    hsetnxOverwrites := true, abortedExecStaysMulti := true, queueErrorNoAbort := true,
-    inplaceKeepsVersion := true, rawLookupSeesExpired := true, flushDetaches := true,
-    helloAnyVersion := true, resp2Scalars := false, dirtyIncomplete := true,
-    bitcountClamp := true, bitcountEmptyCrash := true, bfSignedOverflow64 := true,
-    bfSetOverflowUsesSum := true, unlinkKeepsObject := true, getexNoOptPersists := true,
-    bitposPartialEnd := true, bitopEmptyCreates := true, lcsRunes := true }
+  { Quirks.none with
+    queueErrorNoAbort := true,      -- D24
+    inplaceKeepsVersion := true,    -- D27 / D28
+    rawLookupSeesExpired := true,   -- D22
+    flushDetaches := true,          -- D42
+    dirtyIncomplete := true,        -- D47
+    lcsRunes := true }              -- D68
 
 def words (s : String) : List String := (s.splitOn " ").filter (· ≠ "")
 
